@@ -23,9 +23,10 @@ def classify(fn):
 
 def make_f(k):
     cls, fc, vec = k['cls'], k['fc'], k['vec']
-    cf = (1.0 + 0.5j) if fc else 1.0
+    im = k.get('im', 0.5)                      # size of the imaginary part: 0.5, 1e-8, 1e-16 or 1e-300
+    cf = (1.0 + 1j * im) if fc else 1.0
     if fc == 2 and cls == 'Derivative':
-        cf = np.array([1.0 + 0.5j] + [1.0] * (k['dim'] - 1))       # complex-valued for the first element only
+        cf = np.array([1.0 + 1j * im] + [1.0] * (k['dim'] - 1))       # complex-valued for the first element only
     if cls == 'Derivative':
         if vec or k['dim'] == 1:
             return lambda z: (z * z * z + z * 2.0) * cf
@@ -60,9 +61,9 @@ def run_case(k):
         kw['step'] = MinStepGenerator(base_step=0.01, num_steps=1, check_num_steps=False)
     x = np.array([0.5, 1.25, -0.75][:c['dim']])
     if c['xc'] == 1:
-        x = x + 0.25j
+        x = x + 1j * c.get('im', 0.25)
     elif c['xc'] == 2:
-        x = x + 0.25j * (np.arange(len(x)) == len(x) - 1)        # only the last element is complex
+        x = x + 1j * c.get('im', 0.25) * (np.arange(len(x)) == len(x) - 1)        # only the last element is complex
     if c['cls'] == 'Derivative' and c['dim'] == 1:
         x = x[0]
     f = make_f(c)
@@ -137,6 +138,9 @@ def run(tier, rep):
     misc = [r for r in res.records if 'misc' in r]
     if not misc or not calls:
         raise vlib.MachineryError('no cases emitted')
+    for i_, r_ in enumerate(calls):          # the SIZE of the imaginary part is not part of the misuse: large, small and denormal-small
+        if r_['c']['xc'] or r_['c']['fc']:
+            r_['c']['im'] = [0.25, 1e-8, 1e-16, 1e-300][i_ % 4]
     outs = vlib.pool_map(run_case, calls)
     n = 0
     for r, (out, detail) in zip(calls, outs):
